@@ -6,7 +6,7 @@ from vlib import corpus, runner, tlc
 # step kind -> SCSS text; a program is the concatenation of its steps after the prelude
 PRELUDE = '@use "sass:math";\n'
 STEP = {
-    "read": ".r { v: percentage(0.03); w: math.floor(math.$pi); }\n",   # global fn (user-shadowable) + module variable
+    "read": ".r { v: percentage(0.03); w: math.$pi; x: math.$e; }\n",   # global fn (user-shadowable) + module variables
     "write": "math.$pi: 4;\n",                                             # must fail: built-ins are immutable
     "writeg": "math.$pi: 4 !global;\n",
     "writed": "math.$e: 4 !default;\n",
@@ -42,8 +42,8 @@ def model_obs(r):
         elif m.group(1) == "d":
             out.append(2 if "v: 60;" in m.group(2) else -98)
         else:
-            v = re.search(r"v: (\d+)%;\n\s*w: (\d+);", m.group(2))
-            out.append(int(v.group(1)) if v and v.group(2) == "3" else -99)
+            v = re.search(r"v: (\d+)%;\n\s*w: ([\d.]+);\n\s*x: ([\d.]+);", m.group(2))
+            out.append(int(v.group(1)) if v and v.group(2).startswith("3.14159265") and v.group(3).startswith("2.71828182") else -99)
     return out
 
 
@@ -120,7 +120,7 @@ class C05(ProcessEngine):
         # Flow A: every history of the model, with real threads
         hs = [v for v in vecs if sum(len(q) for q in v["threads"].values()) >= 1]
         if ctx.tier == "quick":
-            hs = hs[::3]
+            hs = hs[::6]
         for hi, v in enumerate(hs):
             threads = []
             for t in sorted(v["threads"]):
